@@ -58,6 +58,7 @@ type memConn struct {
 	mu   sync.Mutex
 	cond *sync.Cond
 	seq  *seqLog
+	rechunk func([]byte) [][]byte // how bytes written here are cut into the peer's reads
 
 	chunks    [][]byte // pending inbound data; one Read never crosses a chunk boundary
 	eofAtEnd  bool     // when chunks run out: true = io.EOF (peer vanished), false = block until closed
@@ -191,7 +192,11 @@ func (c *memConn) Write(p []byte) (int, error) {
 		<-gate
 	}
 	if peer != nil {
-		peer.feed(data)
+		if c.rechunk != nil {
+			peer.feed(c.rechunk(data)...)
+		} else {
+			peer.feed(data)
+		}
 	}
 	if hook != nil {
 		hook(data)
